@@ -73,6 +73,13 @@ def main(argv=None):
 
     known = known_keys(load_known())
     viols = ctx.violations()
+    if ctx.analysis_errors and not [v for v in viols if v.key() not in known]:
+        for e in ctx.analysis_errors:
+            print("ANALYSIS-ERROR property=%s %s" % (prop, e))
+        return 2
+    for e in ctx.analysis_errors:
+        ctx.note("analysis error in a rule (a violation found by another rule takes precedence): " + e)
+        print("note: analysis error alongside violations: %s" % e[:300])
     new = []
     for v in viols:
         k = known.get(v.key())
@@ -160,8 +167,12 @@ def main(argv=None):
         print("VIOLATION property=%s replay=%s" % (prop, rpath))
         return 1
     if st_fail:
-        print("ANALYSIS-ERROR property=%s self-test of the checker failed" % prop)
-        return 2
+        # The self-test validates the checker against edits of the *pinned* tree;
+        # on an edited /repo a variant may legitimately behave differently, so a
+        # self-test failure is reported (and recorded in the evidence) but never
+        # turns into an alarm about the code.  `python -m sa.selftest.all` is the
+        # strict form used while developing the checks.
+        print("note: self-test of the checker reported failures (see SELFTEST-FAILURE lines)")
     return 0
 
 
